@@ -12,6 +12,9 @@ A = '(1, 2, 1, [1, 0], Obj(0, 0), {"k": 3, "m": 2})'
 E = '(1, 2, 1, [], Obj(0, 0), {"k": 3, "m": 2})'
 B = '(0, 2, 1, [4, 2, 3], Obj(0, 0), {"k": 3, "m": 2})'
 
+def c17(body, inputs, feats=(), recursive=True):
+  return {'src': PREAMBLE + body, 'inputs': inputs, 'feats': list(feats), 'recursive': recursive}
+
 FIXED = [
  ('C01', 'except-as-name-conversion-fails', 'a209f14',
   "any function containing 'except E as name:' failed to convert (AttributeError: 'str' object has no attribute '_fields')",
@@ -137,6 +140,43 @@ FIXED = [
         v0 = 3
     return (v0,)
 ''', [E, A]), meta=None)),
+ ('C17', 'walrus-target-ctx-load', 'a442a11',
+  "target of an assignment expression inside a call argument got ctx Load; generated 'ag__.ld(n) := ...' failed to load (SyntaxError)",
+  c17('''def f(a, b, c, xs, o, d):
+    v0 = T('u1', (n1 := a + 1) + n1)
+    if (n2 := b) > 0:
+        v0 = v0 + n2
+    return (v0,)
+''', [A, B])),
+ ('C11', 'write-only-user-name-collides', 'c09e7c8',
+  "user names that are only assigned / belong to another scope (break_ = 7, do_return, fscope, get_state_1 ...) were handed out again by the Namer (reserved set = names read)",
+  c01('''def f(a, b, c, xs, o, d):
+    break_ = 7
+    do_return = 3
+    fscope = 5
+    get_state = 1
+    r = 0
+    for i in xs:
+        if i > a:
+            continue
+        if i < 0:
+            break
+        r += i
+    if a > 0:
+        return (r, 1)
+    return (r, b if a else c)
+''', [A, B])),
+ ('C11', 'vars-setter-parameter-collides', '3637daa',
+  "a state variable named vars_ made the generated setter fail to load (name is parameter and nonlocal)",
+  c01('''def f(a, b, c, xs, o, d):
+    vars_ = 0
+    for i in xs:
+        if i > a:
+            vars_ = vars_ + i
+            continue
+        vars_ += 1
+    return (vars_,)
+''', [A, B])),
 ]
 
 OPEN = []
